@@ -37,6 +37,11 @@ func (m *F84Model) Distance(seq1 []uint8, seq2 []uint8, weights []float64) (floa
 
 	trS, trV, _, _, total := countMutations(seq1, seq2, m.selectedSites, weights)
 	trS, trV = trS/total, trV/total
+	// Undefined distance (saturation, no comparable site, no purine or no
+	// pyrimidine in the alignment): see jc.go
+	if !(1.0-trS/(2.0*m.a)-(m.a-m.b)*trV/(2.0*m.a*m.c) > 0) || !(1-trV/(2.0*m.c) > 0) {
+		return math.Inf(1), nil
+	}
 	if m.gamma {
 		dist = 2.0 * m.alpha * (m.a*math.Pow((1.0-trS/(2.0*m.a)-(m.a-m.b)*trV/(2.0*m.a*m.c)), -1./m.alpha) +
 			(m.b+m.c-m.a)*math.Pow((1-trV/(2.0*m.c)), -1./m.alpha) -
@@ -45,7 +50,12 @@ func (m *F84Model) Distance(seq1 []uint8, seq2 []uint8, weights []float64) (floa
 		dist = -2.0*m.a*math.Log(1.0-trS/(2.0*m.a)-(m.a-m.b)*trV/(2.0*m.a*m.c)) + 2.0*(m.a-m.b-m.c)*math.Log(1-trV/(2.0*m.c))
 	}
 
-	return dist, nil
+	// Both arguments are in ]0,1] here: a negative value can only be rounding noise
+	// (identical sequences with gamma), it must not be taken for an undefined distance
+	if dist > 0 {
+		return dist, nil
+	}
+	return 0, nil
 }
 
 func (m *F84Model) InitModel(al align.Alignment, weights []float64, gamma bool, alpha float64) (err error) {
